@@ -125,7 +125,7 @@ def roundSig (b : UInt64) (k : Nat) : UInt64 :=
   let (n, d) := scaleDiv num den p
   ofDecimal (isNeg b) (divRoundEven n d) p
 
-/-- shortest decimal (digits, exp10) that parses back to the same pattern, closest to the value
+/-- shortest decimal (digits, exp10) that parses back to the same pattern, closest to the value (ties up)
     — models the digit generation of Rust `Display for f64` (Grisu/Dragon shortest) -/
 def shortest (b : UInt64) : Nat × Int :=
   let mag := b &&& 0x7FFFFFFFFFFFFFFF
@@ -144,7 +144,9 @@ def shortest (b : UInt64) : Nat × Int :=
       let dLo := n - lo * d
       let dHi := hi * d - n
       if okLo && okHi then
-        if dLo < dHi then (lo, p) else if dHi < dLo then (hi, p) else (if lo % 2 == 0 then (lo, p) else (hi, p))
+        -- exact tie (e.g. 1000000000000100.25 → …100.3, 325000000000025.125 → …25.13): Rust's shortest
+        -- digit generation rounds the last digit half UP (`remainder * 2 >= scale`)
+        if dLo < dHi then (lo, p) else (hi, p)
       else if okLo then (lo, p)
       else if okHi then (hi, p)
       else go (k + 1) fuel
